@@ -20,7 +20,7 @@ PROPS = {
         # lowering's two arithmetic arms and the checker's compound arm are under contract in the units above)
         'bounded_standins': [
             {'oracle': 'diffrun::C04', 'cases': 0, 'functions': 30, 'programs_quick': 2, 'programs_thorough': 6, 'function': 'the whole pipeline (lexer, parser, checker, lowering, code generator, project generator, rustc, the program) on / // % in 12 statement / operand shapes (nested, mixed with + - *, int(..), let, compound on local / field / element, lambda, bare statement) over 22 operand forms',
-             'bound': 'a seeded SAMPLE (not exhaustive): 2 programs (quick) / 6 programs (thorough) of 30 generated test functions each — alternately as one file and as an IMPORTED module next to the main file —, every function called with 3 argument sets; the program must build (rustc judges the declared numeric kind of every expression) and every printed value must equal the documented semantics computed with Python; plus programs that must stop with the documented error text after printing a marker (C04: 11 zero-divisor forms, C05: 10 out-of-range / zero-step forms; two per quick run, all in a thorough run); shapes that need parentheses around + - * sub-expressions and a few shapes that trip unrelated compiler defects are not generated (listed in tools/diffrun.py)'},
+             'bound': 'a seeded SAMPLE (not exhaustive): 2 programs (quick) / 6 programs (thorough) of 30 generated test functions each — alternately as one file and as an IMPORTED module next to the main file —, every function called with 3 argument sets; the program must build (rustc judges the declared numeric kind of every expression) and every printed value must equal the documented semantics computed with Python; plus programs that must stop with the documented error text after printing a marker (C04: 11 zero-divisor forms, C05: 10 out-of-range / zero-step forms; all on every run); shapes that need parentheses around + - * sub-expressions and a few shapes that trip unrelated compiler defects are not generated (listed in tools/diffrun.py)'},
             {'oracle': 'incan::fstring_operands', 'cases': 12, 'function': 'parser convert_fstring_parts / parse_fstring_expr (spans of f-string sub-expressions) + checker type map + lowering of operands',
              'bound': 'exhaustive over 6 operators x ints-first / floats-first: four f-strings in one function (int pair, float pair, float var with a float literal, int var with a float literal); each expression must get the helper / promotion for its own operands'},
             {'oracle': 'incan::emit_division', 'cases': 132, 'function': 'parser + lowering of `L op R` / `T op= R` (compound assignment on locals, fields and list elements; const initializers) and emit_binop_expr',
@@ -63,7 +63,7 @@ PROPS = {
             {'oracle': 'incan::emit_range', 'cases': 155, 'function': 'emit_range_call (call site of the runtime range) and the lowering of for loops over range',
              'bound': 'exhaustive over range(e), range(s, e), range(s, e, k) x {variable, 0, negative literal, 2, expression} per written argument; one fixed program shape; checks argument positions and the defaults 0 / 1 in the generated call'},
             {'oracle': 'diffrun::C05', 'cases': 0, 'functions': 30, 'programs_quick': 2, 'programs_thorough': 6, 'function': 'the whole pipeline (lexer, parser, checker, lowering, code generator, project generator, rustc, the program) on index / slice / range forms (objects: variable, field, call result, nested; slices with random bounds and steps; for over slices; range hashes; nested and element assignment; f-strings; match-bound lists)',
-             'bound': 'a seeded SAMPLE (not exhaustive): 2 programs (quick) / 6 programs (thorough) of 30 generated test functions each — alternately as one file and as an IMPORTED module next to the main file —, every function called with 3 argument sets; the program must build (rustc judges the declared numeric kind of every expression) and every printed value must equal the documented semantics computed with Python; plus programs that must stop with the documented error text after printing a marker (C04: 11 zero-divisor forms, C05: 10 out-of-range / zero-step forms; two per quick run, all in a thorough run); shapes that need parentheses around + - * sub-expressions and a few shapes that trip unrelated compiler defects are not generated (listed in tools/diffrun.py)'},
+             'bound': 'a seeded SAMPLE (not exhaustive): 2 programs (quick) / 6 programs (thorough) of 30 generated test functions each — alternately as one file and as an IMPORTED module next to the main file —, every function called with 3 argument sets; the program must build (rustc judges the declared numeric kind of every expression) and every printed value must equal the documented semantics computed with Python; plus programs that must stop with the documented error text after printing a marker (C04: 11 zero-divisor forms, C05: 10 out-of-range / zero-step forms; all on every run); shapes that need parentheses around + - * sub-expressions and a few shapes that trip unrelated compiler defects are not generated (listed in tools/diffrun.py)'},
             {'oracle': 'incan::multifile_index', 'cases': 8, 'function': 'IrCodegen multi-file generation (try_generate_multi_file / _nested): lowering of an IMPORTED module',
              'bound': 'a helper module with a model and one function next to a main module that imports it, through both multi-file APIs x 4 reads of a field inside the module (list index, str index, list slice, str slice); each must use the runtime helper for the field\'s type'},
             {'oracle': 'incan::emit_slice', 'cases': 287, 'function': 'parser index_or_slice/parse_slice, lowering of Index/Slice, emit_index_expr, emit_slice_expr',
@@ -117,7 +117,7 @@ PROPS = {
             {'oracle': 'incan::static_type', 'cases': 11760, 'function': 'TypeChecker: annotated let / return / call argument of a binary expression',
              'bound': 'exhaustive over 7 operators x int/float operand kinds x int/float annotation x 7 right-operand forms (variable, const, literal, 0, negative literal, parenthesised, double minus) x 5 binding positions (let, return, argument, const initializer, let inside an elif branch) x bare / parenthesised right-hand side x 3 annotation spellings (int / Int / INT); fixed program shapes; accepted iff the annotation is the kind given by the table'},
             {'oracle': 'diffrun::C07', 'cases': 0, 'functions': 30, 'programs_quick': 2, 'programs_thorough': 6, 'function': 'the whole pipeline (lexer, parser, checker, lowering, code generator, project generator, rustc, the program) on + - * ** and comparisons over int / float operands in 22 operand forms (annotated let, compound on local / field, zip / enumerate components, natural-precedence nesting)',
-             'bound': 'a seeded SAMPLE (not exhaustive): 2 programs (quick) / 6 programs (thorough) of 30 generated test functions each — alternately as one file and as an IMPORTED module next to the main file —, every function called with 3 argument sets; the program must build (rustc judges the declared numeric kind of every expression) and every printed value must equal the documented semantics computed with Python; plus programs that must stop with the documented error text after printing a marker (C04: 11 zero-divisor forms, C05: 10 out-of-range / zero-step forms; two per quick run, all in a thorough run); shapes that need parentheses around + - * sub-expressions and a few shapes that trip unrelated compiler defects are not generated (listed in tools/diffrun.py)'},
+             'bound': 'a seeded SAMPLE (not exhaustive): 2 programs (quick) / 6 programs (thorough) of 30 generated test functions each — alternately as one file and as an IMPORTED module next to the main file —, every function called with 3 argument sets; the program must build (rustc judges the declared numeric kind of every expression) and every printed value must equal the documented semantics computed with Python; plus programs that must stop with the documented error text after printing a marker (C04: 11 zero-divisor forms, C05: 10 out-of-range / zero-step forms; all on every run); shapes that need parentheses around + - * sub-expressions and a few shapes that trip unrelated compiler defects are not generated (listed in tools/diffrun.py)'},
             {'oracle': 'incan::fstring_operands', 'cases': 12, 'function': 'parser convert_fstring_parts / parse_fstring_expr (spans of f-string sub-expressions) + checker type map + lowering of operands',
              'bound': 'exhaustive over 6 operators x ints-first / floats-first: four f-strings in one function (int pair, float pair, float var with a float literal, int var with a float literal); each expression must get the helper / promotion for its own operands'},
             {'oracle': 'incan::multifile_promotion', 'cases': 6, 'function': 'IrCodegen multi-file generation (try_generate_multi_file / _nested): lowering of an IMPORTED module',
